@@ -31,7 +31,7 @@ class C14(Prop):
     REQUIRED_CLASSES = ["mode:%d" % m for m in MODES] + ["print_growth", "utils", "reset_after_custom"]
 
     def budget(self, tier):
-        return {"workers": 14, "examples": 600 if tier == "quick" else 12000}
+        return {"workers": 14, "examples": 900 if tier == "quick" else 12000}
 
     def strategy(self, tier):
         seg = st.fixed_dictionaries({"mode": st.sampled_from(MODES + [LG_BOTH, LG_MALLOC_ONLY, LG_FREE_ONLY]), "seeds": seed_trees(2),
